@@ -79,6 +79,46 @@ def main():
         if old != new:
             open(out, "w").write(new)
         replace[src_path] = out
+    # 4. deterministic map iteration in the simulation binary: fixed hash keys, fixed per-map
+    #    seeds and zero iteration offsets in the Go runtime (three literal substitutions in the
+    #    pinned toolchain's sources; skipped with a note if the sources look different).
+    goroot = os.environ.get("VERIF_GOROOT", "/opt/veriftools/go1.26.8")
+    STD = {
+        "src/runtime/alg.go": [
+            ("key[i] = bootstrapRand()", "key[i] = 0x243f6a8885a308d3 + uint64(i)*0x9e3779b97f4a7c15", 1),
+            ("hashkey[i] = uintptr(bootstrapRand())", "hashkey[i] = uintptr(0x243f6a8885a308d3 + uint64(i)*0x9e3779b97f4a7c15)", 1),
+        ],
+        "src/internal/runtime/maps/map.go": [
+            ("m.seed = uintptr(rand())", "m.seed = 0x9e3779b97f4a7c15", 4),
+        ],
+        "src/internal/runtime/maps/table.go": [
+            ("it.entryOffset = rand()", "it.entryOffset = 0", 1),
+            ("it.dirOffset = rand()", "it.dirOffset = 0", 1),
+        ],
+    }
+    std_repl = {}
+    for f, subs in STD.items():
+        sp = os.path.join(goroot, f)
+        if not os.path.exists(sp):
+            std_repl = None
+            break
+        src = open(sp).read()
+        for a, b, n in subs:
+            if src.count(a) != n:
+                std_repl = None
+                break
+            src = src.replace(a, b)
+        if std_repl is None:
+            break
+        out = os.path.join(BUILD, "shim", "goroot", f)
+        os.makedirs(os.path.dirname(out), exist_ok=True)
+        if not os.path.exists(out) or open(out).read() != src:
+            open(out, "w").write(src)
+        std_repl[sp] = out
+    if std_repl is None:
+        sys.stderr.write("overlay: note: Go runtime sources differ from the pinned toolchain; map iteration stays randomised\n")
+    else:
+        replace.update(std_repl)
     path = os.path.join(BUILD, "overlay.json")
     data = json.dumps({"Replace": replace}, indent=1, sort_keys=True)
     if not os.path.exists(path) or open(path).read() != data:
